@@ -197,8 +197,9 @@ impl Rule {
 // ------------------------------------------------------------------------------------------ inventories
 /// segments used in generated rules and words (all parse; chosen so that groups, features and
 /// places are all represented, with a few diacritic and multi-character ones)
-pub const CONS: [&str; 30] = ["p", "t", "k", "b", "d", "ɡ", "m", "n", "ŋ", "s", "z", "f", "v", "x", "h", "ʔ", "l", "r", "j", "w", "t͡s", "d͡ʒ", "ʃ", "q", "pʰ", "kʷ", "tʲ", "ᵐb", "ɲ", "θ"];
-pub const VOWS: [&str; 12] = ["a", "e", "i", "o", "u", "ə", "ɛ", "ɔ", "y", "ɯ", "ã", "æ"];
+pub const CONS: [&str; 31] = ["p", "t", "k", "b", "d", "ɡ", "m", "n", "ŋ", "s", "z", "f", "v", "x", "h", "ʔ", "l", "r", "j", "w", "t͡s", "d͡ʒ", "ʃ", "q", "pʰ", "kʷ", "tʲ", "ᵐb", "ɲ", "θ", "ɟ"];
+// (õ and ɚ are precomposed letters which the program splits in two before reading a word)
+pub const VOWS: [&str; 14] = ["a", "e", "i", "o", "u", "ə", "ɛ", "ɔ", "y", "ɯ", "ã", "æ", "õ", "ɚ"];
 pub const GROUPS: [char; 9] = ['C', 'O', 'S', 'P', 'F', 'L', 'N', 'G', 'V'];
 pub const TONES: [u16; 6] = [5, 51, 214, 35, 1234, 3];
 /// tone literals as written in rules: also with zeros, which the manual says are dropped (`[tone: 30]` is tone 3, `10234` is 1234)
@@ -218,12 +219,12 @@ pub fn rand_word(r: &mut Rng, c: &WordCfg) -> String {
     let mut prev_tone = false;
     for i in 0..ns {
         let st = if Some(i) == primary { "ˈ" } else if c.stress && r.chance(1, 8) { "ˌ" } else if i > 0 { "." } else { "" };
-        // a tone closes the syllable, so the dot may be dropped after it
-        if st == "." && prev_tone && r.chance(1, 2) {} else { out.push_str(st); }
+        // a tone closes the syllable, so the dot may be dropped after it; before a stress mark the dot is optional and sometimes written
+        if st == "." && prev_tone && r.chance(1, 2) {} else { if i > 0 && st != "." && r.chance(1, 6) { out.push('.') } out.push_str(st); }
         let mut segs: Vec<String> = Vec::new();
         let shape = r.below(8);
         let onset = match shape { 0 => 0, 1 | 2 | 3 | 4 => 1, _ => if c.max_segs >= 4 { 2 } else { 1 } };
-        for _ in 0..onset { segs.push(r.pick(&CONS).to_string()); }
+        for _ in 0..onset { segs.push(r.pick(&CONS).to_string()); if c.length && r.chance(1, 25) { segs.push("ː".into()); } }
         let v = r.pick(&VOWS).to_string();
         segs.push(v.clone());
         if c.length && r.chance(1, 6) { segs.push(if r.chance(1, 4) { "ːː".into() } else { "ː".into() }); }
@@ -234,7 +235,8 @@ pub fn rand_word(r: &mut Rng, c: &WordCfg) -> String {
         for s in segs { if s == last { continue } flat.push_str(&s); if !s.starts_with('ː') { last = s; } }
         out.push_str(&flat);
         prev_tone = false;
-        if c.tone && r.chance(1, 6) { out.push_str(&r.pick(&TONES).to_string()); prev_tone = true; }
+        // (a tone may be written with zeros, which do not count: 105 is 15)
+        if c.tone && r.chance(1, 6) { if r.chance(1, 12) { out.push_str(*r.pick(&["105", "50", "0", "3040"])) } else { out.push_str(&r.pick(&TONES).to_string()) } prev_tone = true; }
     }
     out
 }
@@ -333,16 +335,24 @@ impl<'a> RuleGen<'a> {
                 let f = if self.r.chance(1, 8) { self.r.pick(&NODES).to_string() } else { self.seg_feat() };
                 if m.feats.iter().any(|(x, _)| *x == f) { continue }
                 let is_node = NODES.contains(&f.as_str());
-                let v = if self.c.alphas && self.r.chance(1, 6) { let c = LATIN[self.bound_alphas.len() % 4]; if !self.bound_alphas.iter().any(|a| a.0 == c) { self.bound_alphas.push((c, if is_node { 1 } else { 0 })); } FV::Alpha(c) } else { self.binval() };
+                let v = if self.c.alphas && self.r.chance(1, 6) {
+                    // half the time a letter that is already bound for this kind (agreement between two matchers), now and then inverted
+                    let kind = if is_node { 1 } else { 0 };
+                    let same: Vec<char> = self.bound_alphas.iter().filter(|a| a.1 == kind).map(|a| a.0).collect();
+                    if !same.is_empty() && self.r.chance(1, 2) { let c = *self.r.pick(&same); if !is_node && self.r.chance(1, 3) { FV::InvAlpha(c) } else { FV::Alpha(c) } }
+                    else { let c = LATIN[self.bound_alphas.len() % 4]; if !self.bound_alphas.iter().any(|a| a.0 == c) { self.bound_alphas.push((c, kind)); } FV::Alpha(c) }
+                } else { self.binval() };
                 m.feats.push((f, v));
             }
         }
         if (allow_supra && self.c.supras && self.r.chance(1, 4)) || (syll_only && m.feats.is_empty()) {
-            match self.r.below(if syll_only { 3 } else { 5 }) {
+            match self.r.below(if syll_only { 4 } else { 7 }) {
                 0 => { let v = self.binval(); m.feats.push(("stress".into(), v)) }
                 1 => { let v = self.binval(); m.feats.push(("sec.stress".into(), v)) }
                 2 => m.tone = Some(*self.r.pick(&RULE_TONES)),
-                3 => { let v = self.binval(); m.feats.push(("long".into(), v)) }
+                3 => { let v = if self.c.alphas && self.r.chance(1, 2) { let c = 'E'; if !self.bound_alphas.iter().any(|a| a.0 == c) { self.bound_alphas.push((c, 2)); } FV::Alpha(c) } else { self.binval() }; m.feats.push(("stress".into(), v)) }
+                4 => { let v = self.binval(); m.feats.push(("long".into(), v)) }
+                5 => { let v = self.binval(); m.feats.push(("overlong".into(), v)); if self.r.chance(1, 2) { let w = self.binval(); m.feats.push(("long".into(), w)) } }
                 _ => { let v = if self.c.alphas && self.r.chance(1, 3) { let c = 'D'; if !self.bound_alphas.iter().any(|a| a.0 == c) { self.bound_alphas.push((c, 2)); } FV::Alpha(c) } else { self.binval() }; m.feats.push(("long".into(), v)) }
             }
         }
@@ -363,10 +373,12 @@ impl<'a> RuleGen<'a> {
         if self.r.chance(1, 10) { m.feats.push(("place".into(), FV::Neg)); }
         if self.r.chance(1, 8) { let nd = self.r.pick(&NODES[..4]).to_string(); let v = self.binval(); m.feats.push((nd, v)); }
         if allow_supra && self.c.supras && self.r.chance(1, 4) {
-            match self.r.below(4) {
+            match self.r.below(6) {
                 0 => { let v = self.binval(); m.feats.push(("stress".into(), v)) }
                 1 => { let v = self.binval(); m.feats.push(("long".into(), v)) }
                 2 => m.tone = Some(*self.r.pick(&RULE_TONES)),
+                3 => { let v = self.binval(); m.feats.push(("overlong".into(), v)) }
+                4 => { let sup: Vec<char> = self.bound_alphas.iter().filter(|a| a.1 == 2).map(|a| a.0).collect(); let v = if !sup.is_empty() { FV::Alpha(*self.r.pick(&sup)) } else { self.binval() }; m.feats.push((if self.r.chance(1, 2) { "long".into() } else { "stress".into() }, v)) }
                 _ => { let v = self.binval(); m.feats.push(("sec.stress".into(), v)) }
             }
         }
@@ -387,7 +399,11 @@ impl<'a> RuleGen<'a> {
     }
     /// a member of a set: mostly segments and groups, now and then a matrix, a syllable or a boundary
     fn set_member(&mut self) -> El {
-        match self.r.below(20) {
+        match self.r.below(24) {
+            20 => El::Ipa(rand_seg(self.r), Some(self.match_mods(true, false))),
+            21 => El::Grp(*self.r.pick(&GROUPS), Some(self.match_mods(true, false)), None),
+            22 => { let b = self.bind(false); El::Grp(*self.r.pick(&GROUPS), None, b) }
+            23 => if self.c.sylls { El::Syll(Some(self.match_mods(true, true)), None) } else { El::Ipa(rand_seg(self.r), None) },
             0..=8 => El::Ipa(rand_seg(self.r), None),
             9..=15 => El::Grp(*self.r.pick(&GROUPS), None, None),
             16 | 17 => El::Mat(self.match_mods(true, false), None),
@@ -402,7 +418,13 @@ impl<'a> RuleGen<'a> {
         for _ in 0..n {
             if self.c.ellipsis && !had_ell && self.r.chance(1, 4) { v.push(El::Ellipsis); had_ell = true; continue }
             had_ell = false;
-            v.push(match self.r.below(3) { 0 => El::Ipa(rand_seg(self.r), None), 1 => El::Grp(*self.r.pick(&GROUPS), None, None), _ => El::Grp(if self.r.chance(1, 2) { 'C' } else { 'V' }, None, None) });
+            v.push(match self.r.below(8) {
+                0 | 1 => El::Ipa(rand_seg(self.r), None), 2 => El::Grp(*self.r.pick(&GROUPS), None, None),
+                3 => El::Mat(self.match_mods(false, false), None),
+                4 => El::Grp(if self.r.chance(1, 2) { 'C' } else { 'V' }, Some(self.match_mods(true, false)), None),
+                5 => { let b = self.bind(false); El::Grp(if self.r.chance(1, 2) { 'C' } else { 'V' }, None, b) }
+                6 => { let segvars: Vec<u8> = self.bound_vars.iter().filter(|v| !v.1).map(|v| v.0).collect(); if !segvars.is_empty() { El::Var(*self.r.pick(&segvars), None) } else { El::Mat(Mods::default(), None) } }
+                _ => El::Grp(if self.r.chance(1, 2) { 'C' } else { 'V' }, None, None) });
         }
         if v.iter().all(|e| *e == El::Ellipsis) { v.push(El::Grp('V', None, None)); }
         v
@@ -416,6 +438,7 @@ impl<'a> RuleGen<'a> {
     pub fn input_el(&mut self) -> El {
         if self.c.sylls && self.r.chance(1, 8) { return self.syll_el(true) }
         if self.c.bounds && self.r.chance(1, 12) { return El::SyllB }
+        if self.c.vars && !self.bound_vars.is_empty() && self.r.chance(1, 6) { let (n, _) = *self.r.pick(&self.bound_vars.clone()); return El::Var(n, None) }
         self.seg_el(true)
     }
     pub fn env_side(&mut self, before: bool) -> Vec<El> {
@@ -429,7 +452,7 @@ impl<'a> RuleGen<'a> {
                 2 if self.c.opts => {
                     let k = self.r.range(1, 2);
                     // the body is segments, now and then a boundary (which matches without consuming anything)
-                    let mut items: Vec<El> = (0..k).map(|_| if self.c.bounds && self.r.chance(1, 8) { El::SyllB } else { self.seg_el(false) }).collect();
+                    let mut items: Vec<El> = (0..k).map(|_| if self.c.bounds && self.r.chance(1, 8) { El::SyllB } else if self.c.sylls && self.r.chance(1, 12) { El::Syll(None, None) } else if self.c.vars && !self.bound_vars.is_empty() && self.r.chance(1, 10) { let (n, _) = *self.r.pick(&self.bound_vars.clone()); El::Var(n, None) } else { self.seg_el(false) }).collect();
                     if items.iter().all(|e| *e == El::SyllB) { items.truncate(1) }
                     // bounds: the usual small ones, open, and now and then an enormous explicit maximum
                     let (lo, hi) = match self.r.below(9) { 0 | 1 => (0, 1), 2 | 3 => (0, self.r.range(2, 3)), 4 | 5 => (0, 0), 6 | 7 => (1, self.r.range(1, 3)), _ => (self.r.below(2), *self.r.pick(&[65536usize, 4294967296, 9999999999999999, usize::MAX])) };
@@ -448,18 +471,27 @@ impl<'a> RuleGen<'a> {
     pub fn env_nonempty(&mut self) -> Env { for _ in 0..20 { let e = self.env(); if !e.before.is_empty() || !e.after.is_empty() { return e } } Env { before: vec![El::WordB], after: vec![] } }
     pub fn env_block(&mut self, required: bool, allow_sets: bool) -> EnvBlock {
         if !required && self.r.chance(2, 5) { return EnvBlock::None }
-        if self.c.special_env && self.r.chance(1, 12) { let n = self.r.range(1, 2); let mut v: Vec<El> = (0..n).map(|_| self.seg_el(false)).collect(); if self.r.chance(1, 3) { v.insert(0, El::WordB) } return EnvBlock::Special(v) }
-        if allow_sets && self.c.env_sets && self.r.chance(1, 6) { return EnvBlock::List(vec![EnvSpec::Set(vec![self.env_nonempty(), self.env_nonempty()])]) }
-        EnvBlock::List(vec![EnvSpec::One(self.env_nonempty())])
+        if self.c.special_env && self.r.chance(1, 12) {
+            let n = self.r.range(1, 2);
+            let mut v: Vec<El> = (0..n).map(|_| match self.r.below(8) { 0 if self.c.sylls => El::Syll(None, None), 1 if self.c.bounds => El::SyllB, 2 if self.c.opts => El::Opt(vec![self.seg_el(false)], 0, 1), _ => self.seg_el(false) }).collect();
+            if v.iter().all(|e| *e == El::SyllB) { v.push(self.seg_el(false)) }
+            if self.r.chance(1, 3) { v.insert(0, El::WordB) }
+            return EnvBlock::Special(v)
+        }
+        let one = |g: &mut Self| -> EnvSpec { if allow_sets && g.c.env_sets && g.r.chance(1, 6) { let k = *g.r.pick(&[1usize, 2, 2, 2, 3]); EnvSpec::Set((0..k).map(|_| g.env_nonempty()).collect()) } else { EnvSpec::One(g.env_nonempty()) } };
+        // now and then two or three environments in one block (`/ #_, _#`)
+        let k = if self.c.condensed && self.r.chance(1, 7) { self.r.range(2, 3) } else { 1 };
+        EnvBlock::List((0..k).map(|_| one(self)).collect())
     }
     /// output element for an input element (substitution)
     fn out_for(&mut self, inp: &El) -> El {
         match inp {
+            El::Syll(..) | El::Struct(..) if self.r.chance(1, 5) && self.bound_vars.iter().any(|v| v.1) => { let sv: Vec<u8> = self.bound_vars.iter().filter(|v| v.1).map(|v| v.0).collect(); El::Var(*self.r.pick(&sv), if self.r.chance(1, 3) { Some(Mods::one("stress", self.binval())) } else { None }) }
             El::Syll(..) | El::Struct(..) => El::Mat(Mods { feats: vec![(if self.r.chance(1, 2) { "stress".into() } else { "sec.stress".into() }, self.binval())], tone: if self.r.chance(1, 3) { Some(*self.r.pick(&RULE_TONES)) } else { None } }, None),
             El::SyllB => El::SyllB,
-            El::Set(v) => if self.r.chance(1, 2) { El::Set(v.iter().map(|_| El::Ipa(rand_seg(self.r), None)).collect()) } else { El::Mat(self.set_mods(true), None) },
+            El::Set(v) => match self.r.below(4) { 0 | 1 => El::Set(v.iter().map(|_| El::Ipa(rand_seg(self.r), None)).collect()), 2 => El::Set(v.iter().map(|m| match m { El::Syll(..) | El::SyllB => El::Mat(Mods { feats: vec![], tone: Some(*self.r.pick(&RULE_TONES)) }, None), _ => if self.r.chance(1, 2) { El::Mat(self.set_mods(false), None) } else { El::Ipa(rand_seg(self.r), None) } }).collect()), _ => El::Mat(self.set_mods(true), None) },
             _ => match self.r.below(4) { 0 | 1 => El::Mat(self.set_mods(true), None), 2 => El::Ipa(rand_seg(self.r), if self.r.chance(1, 6) { Some(self.set_mods(true)) } else { None }),
-                _ => { let segvars: Vec<u8> = self.bound_vars.iter().filter(|v| !v.1).map(|v| v.0).collect(); if !segvars.is_empty() { El::Var(*self.r.pick(&segvars), None) } else { El::Ipa(rand_seg(self.r), None) } } },
+                _ => { let segvars: Vec<u8> = self.bound_vars.iter().filter(|v| !v.1).map(|v| v.0).collect(); if !segvars.is_empty() { let m = if self.r.chance(1, 3) { Some(self.set_mods(true)) } else { None }; El::Var(*self.r.pick(&segvars), m) } else { El::Ipa(rand_seg(self.r), None) } } },
         }
     }
     pub fn rule(&mut self) -> Rule {
@@ -478,6 +510,7 @@ impl<'a> RuleGen<'a> {
                 let mut out: Vec<El> = inp.iter().filter(|e| **e != El::Ellipsis).map(|e| self.out_for(e)).collect();
                 if inp.contains(&El::Ellipsis) { out = vec![] }
                 if out.is_empty() { return Rule { input: vec![Term::Els(inp)], output: vec![Term::Amp], ctx, exc } }
+                if self.c.bounds && self.r.chance(1, 14) { let k = self.r.below(out.len() + 1); out.insert(k, El::SyllB); }   // `C > $C`, `V C > V $ C`
                 if self.r.chance(1, 10) { out.push(El::Ipa(rand_seg(self.r), None)); }            // longer output: insertion after
                 else if out.len() > 1 && self.r.chance(1, 10) { out.pop(); }                        // shorter output: deletion of the rest
                 let mut rule = Rule { input: vec![Term::Els(inp)], output: vec![Term::Els(out)], ctx, exc };
@@ -491,18 +524,25 @@ impl<'a> RuleGen<'a> {
             }
             1 => {
                 let n = self.r.range(1, 2);
-                let inp: Vec<El> = (0..n).map(|_| self.input_el()).collect();
-                Rule { input: vec![Term::Els(inp)], output: vec![Term::Star], ctx: self.env_block(false, true), exc: if self.r.chance(1, 4) { self.env_block(true, true) } else { EnvBlock::None } }
+                let mut inp: Vec<El> = (0..n).map(|_| self.input_el()).collect();
+                if self.c.ellipsis && n >= 2 && self.r.chance(1, 10) { inp.insert(1, El::Ellipsis); }          // `a ... b > *`
+                let mut input = vec![Term::Els(inp)];
+                if self.c.condensed && self.r.chance(1, 8) { input.push(Term::Els(vec![self.seg_el(false)])); }   // `a, i > *`
+                Rule { input, output: vec![Term::Star], ctx: self.env_block(false, true), exc: if self.r.chance(1, 4) { self.env_block(true, true) } else { EnvBlock::None } }
             }
             2 => {
-                let ctx = EnvBlock::List(vec![EnvSpec::One(self.env_nonempty())]);
+                // one environment; now and then two (`* > a / _#, #_`) or the mirrored form (`* > e / _,#`)
+                let ctx = if self.c.special_env && self.r.chance(1, 14) { EnvBlock::Special(vec![if self.r.chance(1, 2) { El::WordB } else { self.seg_el(false) }]) }
+                          else if self.c.condensed && self.r.chance(1, 10) { EnvBlock::List(vec![EnvSpec::One(self.env_nonempty()), EnvSpec::One(self.env_nonempty())]) }
+                          else { EnvBlock::List(vec![EnvSpec::One(self.env_nonempty())]) };
                 let n = self.r.range(1, 2);
                 let mut out: Vec<El> = Vec::new();
                 for _ in 0..n {
                     out.push(match self.r.below(8) {
                         0 if self.c.bounds => El::SyllB,
                         1 if self.c.structs => El::Struct((0..self.r.range(1, 3)).map(|_| El::Ipa(rand_seg(self.r), None)).collect(), if self.r.chance(1, 3) { Some(Mods::one("stress", FV::Pos)) } else { None }, None),
-                        2 if !self.bound_vars.is_empty() => { let (n, _) = *self.r.pick(&self.bound_vars.clone()); El::Var(n, None) }
+                        2 if !self.bound_vars.is_empty() => { let (n, _) = *self.r.pick(&self.bound_vars.clone()); El::Var(n, if self.r.chance(1, 3) { Some(Mods::one(if self.r.chance(1, 2) { "long" } else { "stress" }, self.binval())) } else { None }) }
+                        3 if self.c.sylls && self.r.chance(1, 3) => El::Syll(None, None),
                         _ => El::Ipa(rand_seg(self.r), if self.r.chance(1, 8) { Some(Mods::one("long", FV::Pos)) } else { None }),
                     });
                 }
@@ -513,7 +553,9 @@ impl<'a> RuleGen<'a> {
                 if self.c.ellipsis && self.r.chance(1, 3) { inp.push(El::Ellipsis); }
                 inp.push(self.input_el());
                 if self.r.chance(1, 5) { inp.push(self.input_el()); }
-                Rule { input: vec![Term::Els(inp)], output: vec![Term::Amp], ctx: self.env_block(false, true), exc: EnvBlock::None }
+                let mut input = vec![Term::Els(inp)];
+                if self.c.condensed && self.r.chance(1, 10) { input.push(Term::Els(vec![self.seg_el(false), self.seg_el(false)])); }   // `s t, k p > &`
+                Rule { input, output: vec![Term::Amp], ctx: self.env_block(false, true), exc: EnvBlock::None }
             }
         }
     }
